@@ -1104,8 +1104,25 @@ func checkFactoriesWireCollaborators(c *Ctx, rule string) {
 		if fnPkgPath(fn) != pkgCompose || fn.Parent() != nil || fn.Signature.Recv() != nil || fn.Signature.Params().Len() != 3 || fn.Signature.Results().Len() != 1 || !strings.HasSuffix(fn.Name(), "Factory") {
 			continue
 		}
-		// the struct the factory returns
+		// the struct the factory returns (fields may be assigned on the constructor's allocation and,
+		// afterwards, on the constructor's result in the factory itself)
 		var al *ssa.Alloc
+		set := map[int]bool{}
+		collect := func(v ssa.Value) {
+			refs := v.Referrers()
+			if refs == nil {
+				return
+			}
+			for _, r := range *refs {
+				if fa, ok := r.(*ssa.FieldAddr); ok {
+					for _, r2 := range *fa.Referrers() {
+						if s2, ok := r2.(*ssa.Store); ok && s2.Addr == ssa.Value(fa) {
+							set[fa.Field] = true
+						}
+					}
+				}
+			}
+		}
 		for _, b := range fn.Blocks {
 			for _, ins := range b.Instrs {
 				ret, ok := ins.(*ssa.Return)
@@ -1117,6 +1134,7 @@ func checkFactoriesWireCollaborators(c *Ctx, rule string) {
 					v = mi.X
 				}
 				for d := 0; d < 2; d++ {
+					collect(v)
 					if call, ok := v.(*ssa.Call); ok {
 						if cal := call.Common().StaticCallee(); cal != nil && fnPkgPath(cal) == pkgCompose && len(cal.Blocks) > 0 {
 							// a private constructor: its returned allocation
@@ -1146,16 +1164,7 @@ func checkFactoriesWireCollaborators(c *Ctx, rule string) {
 			continue
 		}
 		n++
-		set := map[int]bool{}
-		for _, r := range *al.Referrers() {
-			if fa, ok := r.(*ssa.FieldAddr); ok {
-				for _, r2 := range *fa.Referrers() {
-					if s2, ok := r2.(*ssa.Store); ok && s2.Addr == ssa.Value(fa) {
-						set[fa.Field] = true
-					}
-				}
-			}
-		}
+		collect(al)
 		used := map[int]string{}
 		for _, m := range c.P.MethodsOf(named.Obj().Pkg().Path(), named.Obj().Name()) {
 			if len(m.Params) == 0 {
